@@ -6,6 +6,7 @@ import (
 	"log"
 	"os/exec"
 	"sync"
+	"sync/atomic"
 
 	"github.com/spq/pkappa2/internal/tools"
 )
@@ -19,7 +20,10 @@ type (
 		output         chan []byte
 		stderrRing     *ring.Ring
 		stderrLock     sync.RWMutex
-		exitCode       int
+		// pid and exitCode are written by run() and read by other goroutines
+		// (statistics, error messages): -1 until the process was started.
+		pid      atomic.Int64
+		exitCode atomic.Int64
 	}
 )
 
@@ -40,6 +44,7 @@ func NewProcess(converterName string, executablePath string) *Process {
 		stderrRing:     ring.New(STDERR_RING_SIZE),
 		stderrLock:     sync.RWMutex{},
 	}
+	process.pid.Store(-1)
 
 	go process.run()
 	return &process
@@ -61,14 +66,11 @@ func (process *Process) Stderr() []string {
 }
 
 func (process *Process) ExitCode() int {
-	return process.exitCode
+	return int(process.exitCode.Load())
 }
 
 func (process *Process) Pid() int {
-	if process.cmd == nil || process.cmd.Process == nil {
-		return -1
-	}
-	return process.cmd.Process.Pid
+	return int(process.pid.Load())
 }
 
 // Run until input channel is closed
@@ -150,6 +152,7 @@ func (process *Process) run() {
 		}
 		return
 	}
+	process.pid.Store(int64(process.cmd.Process.Pid))
 
 	for line := range process.input {
 		if _, err := stdin.Write(line); err != nil {
@@ -158,11 +161,11 @@ func (process *Process) run() {
 			if err := process.cmd.Wait(); err != nil {
 				if _, ok := err.(*exec.ExitError); !ok {
 					log.Printf("Converter (%s): Failed to wait for process: %q", process.converterName, err)
-					process.exitCode = -1
+					process.exitCode.Store(-1)
 				}
 			}
 			if process.cmd.ProcessState != nil {
-				process.exitCode = process.cmd.ProcessState.ExitCode()
+				process.exitCode.Store(int64(process.cmd.ProcessState.ExitCode()))
 			}
 
 			// drain input channel to unblock caller
@@ -178,9 +181,9 @@ func (process *Process) run() {
 	if err := process.cmd.Wait(); err != nil {
 		if _, ok := err.(*exec.ExitError); !ok {
 			log.Printf("Converter (%s): Failed to wait for process: %q", process.converterName, err)
-			process.exitCode = -1
+			process.exitCode.Store(-1)
 			return
 		}
 	}
-	process.exitCode = process.cmd.ProcessState.ExitCode()
+	process.exitCode.Store(int64(process.cmd.ProcessState.ExitCode()))
 }
